@@ -2,12 +2,13 @@
 additive and pairwise rules.  The theorems (Props/C17.v) are about the HighestAverages model and the additive
 fold; this check (a) keeps that model tied to HighestAverages.evaluate by a differential stream, (b) evaluates
 the relational clauses on the IMPLEMENTATION: evaluate(n) vs evaluate(n+1), evaluate(votes) vs evaluate(votes+),
-and every upward move of a sole winner on one ballot for ten rules."""
+and every upward move of a sole winner on one ballot for ten rules; (c) keeps the PreferenceAddition (Bucklin / Oklahoma) model of
+Model/Bucklin.v tied to the code by differential streams (the theorems C17_bucklin, C17_oklahoma, ... are about that model)."""
 import itertools
 from fractions import Fraction
 import common
 from common import sx, q, jq, cname, cnum, ok
-from units import U
+from units import U, BLOCK
 import props.c01 as c01
 
 ID = 'C17'
@@ -15,19 +16,25 @@ LEVEL = 'proof'
 TIE = {'HighestAverages.evaluate': 'correspondence (stream ha-tie, model shared with C01)',
        'component/divisor.py': 'translator (GenTie_Divisor.v, obligation of C01) + strictness lemmas Props/C17.v C17_builtin_strict',
        'convert.* additive folds, core.get_n_best': 'models shared with C13 / C09 (correspondence there); relational clauses on the implementation here',
-       'condorcet.Copeland/MinimaxCondorcet/Schulze, sequential.PreferenceAddition': 'relational clauses on the implementation only'}
+       'condorcet.Copeland/MinimaxCondorcet/Schulze': 'relational clauses on the implementation only',
+       'sequential.PreferenceAddition.evaluate (+ _decouple_equal_rankings, _add_round_votes, Tie.reconcile)':
+           'correspondence (streams pa-exhaustive-small, pa-random against Model/Bucklin.v; theorems C17_bucklin, C17_oklahoma, C17_preference_addition*)'}
 RULE = ('ha-tie: C01 generators (random, constructed quotient ties, zero-vote/caps) against the model. house: every such case and the '
         'exhaustive small domain (<=3 parties, votes 0..3, n 1..4, 5 divisors) evaluated at n and n+1 on the implementation: no party\'s '
         'definite seats drop; members of a reported tie are not worse off. votes: one party gets +1 / +10% / x2 / +1e30 votes, the others keep '
         'theirs: its seats do not drop whenever the second result is tie-free. sole-winner: random ranked / approval / score profiles '
         '(3..5 candidates, 2..7 ballot types, truncation), every rule of the property; whenever evaluate(votes, 1) == [w], every single-ballot '
         'upward move of w (one place up, to the top; approve w; raise w\'s score) and every added ballot ranking w first (a bullet vote for all rules; '
-        'also longer ballots for the additive rules) must again give [w]. non-trivial = a tie in either result / '
+        'also longer ballots for the additive rules and Oklahoma) must again give [w]. pa-*: PreferenceAddition.evaluate against the model on random / small exhaustive '
+        'ranked profiles (truncation, shared ranks, 6 coefficient specs incl. an empty list, split on/off, 1..4 seats). sole-winner-shared-ranks: Bucklin / Oklahoma, every upward move of '
+        'the sole winner on a ballot WITH shared ranks (to a higher place; out of a shared rank to a place of its own). non-trivial = a tie in either result / '
         'a binding cap / previous gains (house, votes), or the move changes some candidate\'s standing (sole-winner); distinct by case hash')
 PARTIAL = ['Schulze sole-winner monotonicity: REFUTED for votelib\'s ranking by the number of path-wins (C17_schulze_refuted, witnesses C17_schulze_witness / '
            'C17_schulze_witness_loses, known finding C17-schulze-path-win-count, corpus/C17/schulze-winner-*.json); proved instead: the winner keeps every path-win, '
            'gets no path-defeat and its count does not drop (C17_schulze_partial)',
-           'Bucklin monotonicity: decided per explored case by the relational checker, not proved (Copeland and minimax are proved: C17_copeland, C17_minimax)',
+           'Bucklin / Oklahoma with split shared ranks: proved when the CHANGED ballot has no shared rank (the others may); changed ballots with shared ranks are decided per explored case '
+           '(stream sole-winner-shared-ranks) - refuted for the code as written when the ballot has two or more shared ranks (C17_bucklin_shared_refuted, known finding C17-bucklin-splice-offset)',
+           'Bucklin with a new ballot that ranks further candidates below the winner: refuted (C17_bucklin_added_full_refuted, the participation failure of Bucklin); proved for the bullet vote and for any such ballot under Oklahoma',
            'vote monotonicity with zero-vote parties or when the larger run ends in a tie or with caps exhausted: relational checker only',
            'positional rules: C17_positional needs the scorer to be non-increasing at the two places; proved for Dowdall, modified Borda and '
            'fixed top, checked per case for Borda, geometric and sequence-based scorers']
@@ -130,6 +137,8 @@ RANKED_RULES = ['plurality', 'borda', 'borda0', 'dowdall', 'geometric', 'modifie
 
 
 ADDITIVE = {'plurality', 'borda', 'borda0', 'dowdall', 'geometric', 'modified_borda', 'fixed_top', 'sequence'}
+# a longer new ballot with the winner on top is also safe under Oklahoma (coefficients of the later places <= 1/2: C17_oklahoma_added)
+LONG_ADDED = ADDITIVE | {'oklahoma'}
 
 
 def evalreg_cands(prof):
@@ -317,7 +326,7 @@ def sole_winner_ranked(ctx, stream, count, rng, beatpath=False):
         # others - the participation failure of such methods, not a monotonicity defect; see DESIGN.md C17)
         others = [k for k in evalreg_cands(prof) if k != w]
         added = [[w]]
-        if rule in ADDITIVE:
+        if rule in LONG_ADDED:
             rng.shuffle(others)
             added += [[w] + others, [w] + others[:rng.randint(0, len(others))], [w] + others[::-1], [w] + others[1:] + others[:1]]
         for nb in added:
@@ -424,6 +433,230 @@ def sole_winner_cardinal(ctx, stream, count, rng):
     ctx.streams[stream] = dict(cases=n, deviations=bad)
 
 
+# ------------------------------------------------------------------ PreferenceAddition (Bucklin / Oklahoma) vs the model
+PA_COEFS = [['list', [1]], ['harmonic'], ['list', [1, '1/2', '1/4']], ['list', [1, 0, 2]], ['list', ['1/2', 1]], ['list', []]]
+
+
+def pa_py_ballot(b):
+    """case ballot (ints = plain ranks, lists = shared ranks) -> Python tuple"""
+    return tuple(frozenset(cname(k) for k in it) if isinstance(it, list) else cname(it) for it in b)
+
+
+def pa_py_coefs(spec):
+    if spec[0] == 'harmonic':
+        return lambda i: Fraction(1, i + 1)
+    return [int(q(x)) if q(x).denominator == 1 else q(x) for x in spec[1]]
+
+
+_SPLICE = []
+
+
+def pa_splice_fixed():
+    """which splicing loop does the implementation's _decouple_equal_rankings have?  As written (0) the second shared rank of a
+    ballot stays in the ballot; with fixes/C17-bucklin-splice-offset.diff (1) it does not.  The model has both (Model/Bucklin.v fx)."""
+    if not _SPLICE:
+        import votelib.evaluate.sequential as seq
+        d = seq.PreferenceAddition()._decouple_equal_rankings({(frozenset(['A']), frozenset(['B']), 'C'): 1})
+        _SPLICE.append(0 if any(isinstance(it, frozenset) for b in d for it in b) else 1)
+    return _SPLICE[0]
+
+
+def pa_model_line(c):
+    votes = []
+    for b, w in c['votes']:
+        # a shared rank goes to the model in the ITERATION order of the frozenset the implementation will see
+        mb = [[cnum(x) for x in it] if isinstance(it, frozenset) else cnum(it) for it in pa_py_ballot(b)]
+        votes.append([mb, q(w)])
+    cs = [1] if c['coefs'][0] == 'harmonic' else [0, [q(x) for x in c['coefs'][1]]]
+    return '%d (%d %s %d %s %d)' % (BLOCK['C17'] + 0, pa_splice_fixed(), sx(cs), 1 if c['split'] else 0, sx(votes), c['n'])
+
+
+def pa_evaluator(c):
+    import votelib.evaluate.sequential as seq
+    return seq.PreferenceAddition(coefficients=pa_py_coefs(c['coefs']), split_equal_rankings=c['split'])
+
+
+def pa_impl(c):
+    import votelib.evaluate.core as core
+    votes = {pa_py_ballot(b): (int(q(w)) if q(w).denominator == 1 else q(w)) for b, w in c['votes']}
+    res = pa_evaluator(c).evaluate(votes, c['n'])
+    return ok([sorted(cnum(x) for x in r) if isinstance(r, core.Tie) else cnum(r) for r in res])
+
+
+def pa_canon(c, wire):
+    v = common.parse_sx(wire)
+    if v[0] == 4:
+        return ('unmodelled',)
+    if v[0] != 0:
+        return ('err', v[1])
+    return ('ok', tuple(tuple(sorted(r)) if isinstance(r, list) else r for r in v[1]))
+
+
+def pa_nontrivial(c):
+    return c['n'] > 1 or any(isinstance(it, list) for b, _ in c['votes'] for it in b) or c['coefs'] != ['list', [1]]
+
+
+def pa_spec(c, io, mo):
+    """declarative clause on the implementation's output: a single Bucklin winner holds more than half of the (weighted)
+    ballots within the preferences counted when it is elected, i.e. within all of them"""
+    v = common.parse_sx(io)
+    if v[0] != 0 or c['n'] != 1 or c['coefs'] != ['list', [1]] or len(v[1]) != 1 or isinstance(v[1][0], list):
+        return None
+    w = v[1][0]
+    tot = sum(q(x) for _, x in c['votes'])
+    sup = sum(q(x) for b, x in c['votes'] if any((w in it) if isinstance(it, list) else w == it for it in b))
+    if not sup * 2 > tot:
+        return 'Bucklin winner %s is ranked on %s of %s ballots only: no majority at any round' % (cname(w), sup, tot)
+    return None
+
+
+def pa_diff_known(c, io, mo):
+    """the majority clause can fail through the splicing defect (a ballot with two shared ranks counts a candidate twice: as a member
+    of the shared rank that stays and as the permuted copy) - only when the model agrees with the implementation about the result"""
+    if (not pa_splice_fixed() and c['split'] and pa_canon(c, io) == pa_canon(c, mo)
+            and any(sum(isinstance(it, list) for it in b) >= 2 for b, _ in c['votes'])):
+        return 'C17-bucklin-splice-offset'
+    return None
+
+
+def gen_pa_ballot(rng, ids, shared_p):
+    perm = ids[:]
+    rng.shuffle(perm)
+    if rng.random() < 0.45:
+        perm = perm[:rng.randint(0 if rng.random() < 0.05 else 1, len(perm))]
+    out, i = [], 0
+    while i < len(perm):
+        if rng.random() < shared_p:
+            k = rng.randint(1, min(3, len(perm) - i))
+            out.append(sorted(perm[i:i + k], key=lambda _: rng.random()))
+            i += k
+        else:
+            out.append(perm[i])
+            i += 1
+    return out
+
+
+def gen_pa(rng, count):
+    for _ in range(count):
+        m = rng.randint(2, 5)
+        ids = list(range(1, m + 1))
+        shared_p = rng.choice([0, 0, 0.15, 0.4])
+        prof = []
+        seen = set()
+        for _ in range(rng.randint(0 if rng.random() < 0.02 else 1, 7)):
+            b = gen_pa_ballot(rng, ids, shared_p)
+            key = pa_py_ballot(b)
+            if key in seen:
+                continue
+            seen.add(key)
+            w = rng.choice([rng.randint(1, 4), rng.randint(1, 4), rng.randint(0, 12), jq(Fraction(rng.randint(1, 9), rng.randint(1, 4)))])
+            prof.append([b, w])
+        coefs = rng.choice([PA_COEFS[0]] * 4 + [PA_COEFS[1]] * 3 + PA_COEFS[2:5] + ([PA_COEFS[5]] if rng.random() < 0.1 else []))
+        yield dict(unit='preference_addition', coefs=coefs, split=rng.random() < 0.75, votes=prof, n=rng.randint(1, min(4, m)))
+
+
+def gen_pa_exhaustive():
+    """all profiles of <= 2 ballot types over 3 candidates (full and truncated strict rankings, one shared pair), weights 1..2,
+    Bucklin and Oklahoma, 1..2 seats"""
+    ballots = []
+    for k in (1, 2, 3):
+        ballots += [list(p) for p in itertools.permutations([1, 2, 3], k)]
+    ballots += [[[1, 2], 3], [3, [1, 2]], [[2, 3]], [1, [2, 3]]]
+    for i, a in enumerate(ballots):
+        for b in ballots[i + 1:]:
+            for wa, wb in ((1, 1), (2, 1), (1, 2)):
+                for coefs in PA_COEFS[:2]:
+                    for n in (1, 2):
+                        yield dict(unit='preference_addition', coefs=coefs, split=True, votes=[[a, wa], [b, wb]], n=n)
+
+
+# ------------------------------------------------------------------ Bucklin / Oklahoma: upward moves on ballots WITH shared ranks
+KNOWN_SPLICE = 'C17-bucklin-splice-offset'
+
+
+def n_shared(b):
+    return sum(isinstance(it, list) for it in b)
+
+
+def shared_moves(b, w, rng):
+    """w (a plain rank) moves to any higher place; w leaves a shared rank for a place of its own above it"""
+    for i, it in enumerate(b):
+        if it == w:
+            for j in range(i):
+                yield b[:j] + [w] + b[j:i] + b[i + 1:]
+        elif isinstance(it, list) and w in it and len(it) > 1:
+            rest = [k for k in it if k != w]
+            r = [rest[0]] if len(rest) == 1 and rng.random() < 0.5 else [rest]
+            for j in range(i + 1):
+                yield b[:j] + [w] + b[j:i] + r + b[i + 1:]
+
+
+def pa_known_class(case, io, mo):
+    if not pa_splice_fixed() and (n_shared(case['old_ballot']) >= 2 or n_shared(case['new_ballot']) >= 2):
+        return KNOWN_SPLICE
+    return None
+
+
+def shared_case_check(ctx, stream, case):
+    """re-evaluate one recorded move; report when the sole winner is lost (True = a failure outside the known class)"""
+    ev = ranked_evaluator(case['rule'])
+    def run(p):     # noqa
+        votes = {}
+        for b, x in p:
+            k = pa_py_ballot(b)
+            votes[k] = votes.get(k, 0) + x
+        return common.call_impl(lambda: ev.evaluate(votes, 1), 10)
+    r0 = run(case['profile'])
+    if r0[0] != 'ok' or sole_winner(r0[1]) != case['winner']:
+        return False
+    p2 = [[b, x - (1 if i == case['ballot'] else 0)] for i, (b, x) in enumerate(case['profile'])]
+    p2 = [bx for bx in p2 if bx[1] > 0] + [[case['new_ballot'], 1]]
+    r1 = run(p2)
+    if r1[0] == 'ok' and sole_winner(r1[1]) == case['winner']:
+        return False
+    known = pa_known_class(case, None, None)
+    if not known:
+        ctx.checker_false += 1
+    ctx.report(stream, case, str(r1[1:]), 'n/a', '%s: sole winner %s no longer the sole winner after moving it up on the ballot %s -> %s: %s'
+               % (case['rule'], cname(case['winner']), case['old_ballot'], case['new_ballot'], r1[1:]), pa_known_class)
+    return not known
+
+
+def sole_winner_shared(ctx, stream, count, rng):
+    bad = n = 0
+    for _ in range(count):
+        m = rng.randint(3, 5)
+        ids = list(range(1, m + 1))
+        prof, seen = [], set()
+        for _ in range(rng.randint(1, 6)):
+            b = gen_pa_ballot(rng, ids, rng.choice([0.2, 0.5]))
+            if not b or pa_py_ballot(b) in seen:
+                continue
+            seen.add(pa_py_ballot(b))
+            prof.append([b, rng.randint(1, 4)])
+        if not prof:
+            continue
+        rule = rng.choice(['bucklin', 'oklahoma'])
+        ctx.evaluations += 1
+        ctx.dist['stream:' + stream] += 1
+        ev = ranked_evaluator(rule)
+        r0 = common.call_impl(lambda: ev.evaluate({pa_py_ballot(b): x for b, x in prof}, 1), 10)
+        w = sole_winner(r0[1]) if r0[0] == 'ok' else None
+        if w is None:
+            continue
+        for bi, (b, _) in enumerate(prof):
+            if not n_shared(b):
+                continue
+            for b2 in shared_moves(b, w, rng):
+                n += 1
+                case = dict(kind='sole-shared', rule=rule, profile=prof, ballot=bi, old_ballot=b, new_ballot=b2, winner=w)
+                ctx.nontrivial.add(common.case_hash(case))
+                ctx.dist['shared-move:%d-shared-ranks' % min(2, max(n_shared(b), n_shared(b2)))] += 1
+                if shared_case_check(ctx, stream, case):
+                    bad += 1
+    ctx.streams[stream] = dict(cases=n, deviations=bad)
+
+
 def corpus():
     import os, json, glob
     for p in sorted(glob.glob(os.path.join(common.VERIF, 'corpus', ID, '*.json'))):
@@ -464,6 +697,11 @@ def run_corpus_case(ctx, c, stream='corpus'):
             ctx.checker_false += 1
             ctx.report(stream, c, str(r1[1:]), 'n/a', '%s: sole winner lost after an upward move' % c['rule'],
                        known_class=schulze_known_class)
+    elif k == 'sole-shared':
+        ctx.evaluations += 1
+        shared_case_check(ctx, stream, c)
+    elif c.get('unit') == 'preference_addition':
+        ctx.differential(stream, [c], pa_model_line, pa_impl, canon=pa_canon, nontrivial=pa_nontrivial, spec=pa_spec, known_class=pa_diff_known)
     elif c.get('unit') == 'highest_averages':
         ctx.differential(stream, [c], c01.model_line, c01.impl, canon=c01.canon, nontrivial=c01.nontrivial)
 
@@ -475,6 +713,11 @@ def explore(ctx, widen=1):
     kw = dict(canon=c01.canon, nontrivial=c01.nontrivial)
     ctx.differential('ha-tie', itertools.chain(c01.gen_random(rng, ctx.n(500, 6000) * widen), c01.gen_ties(rng, ctx.n(200, 2000) * widen),
                                                c01.gen_zero_caps(rng, ctx.n(100, 1000))), c01.model_line, c01.impl, **kw)
+    pex = list(gen_pa_exhaustive())
+    ctx.differential('pa-exhaustive-small', pex if ctx.tier != 'quick' else pex[::3], pa_model_line, pa_impl, canon=pa_canon,
+                     nontrivial=pa_nontrivial, spec=pa_spec, known_class=pa_diff_known)
+    ctx.differential('pa-random', gen_pa(rng, ctx.n(4000, 60000) * widen), pa_model_line, pa_impl, canon=pa_canon,
+                     nontrivial=pa_nontrivial, spec=pa_spec, known_class=pa_diff_known)
     ex = list(c01.gen_exhaustive())
     if ctx.tier == 'quick':
         ex = ex[::2]
@@ -486,6 +729,7 @@ def explore(ctx, widen=1):
     votes_checks(ctx, 'votes-random', itertools.chain(c01.gen_random(rng, ctx.n(1500, 20000) * widen), c01.gen_ties(rng, ctx.n(600, 8000) * widen)), rng)
     sole_winner_ranked(ctx, 'sole-winner-ranked', ctx.n(8000, 60000) * widen, rng)
     sole_winner_ranked(ctx, 'sole-winner-beatpath', ctx.n(3000, 20000) * widen, rng, beatpath=True)
+    sole_winner_shared(ctx, 'sole-winner-shared-ranks', ctx.n(2500, 30000) * widen, rng)
     sole_winner_cardinal(ctx, 'sole-winner-cardinal', ctx.n(1500, 15000) * widen, rng)
 
 
